@@ -235,6 +235,10 @@ func (w *wld) canon() string {
 	return sb.String()
 }
 
+// joinerIDs: the raft ids of the nodes that join, in order. Not all single decimal digits: 26 = 0x1a and 11 = 0xb read
+// differently in another base, 26 > 16 orders differently as text.
+var joinerIDs = []uint64{2, 26, 11}
+
 var limits struct{ joins, removes, snapshots, restarts, maxNode int }
 
 func enabled(w *wld) []event {
@@ -248,7 +252,7 @@ func enabled(w *wld) []event {
 	sort.Slice(live, func(i, j int) bool { return live[i] < live[j] })
 	if w.counts.joins < limits.joins {
 		next := uint64(0)
-		for id := uint64(2); id <= uint64(limits.maxNode); id++ {
+		for _, id := range joinerIDs[:limits.maxNode-1] {
 			if _, m := w.members[id]; !m && !w.removed[id] {
 				next = id
 				break
